@@ -49,7 +49,11 @@ fn last_chunk_files() -> Vec<(String, File)> {
         } else {
             f.frames[1].push(b);
         }
-        out.push((format!("last-{}", name), f));
+        out.push((format!("last-{}", name), f.clone()));
+        // the same chunk followed by one more cel chunk in the last frame (what comes after it must be read too)
+        let mut g = f;
+        g.frames[1].push(raw_cel(0, 1, 1, 255, 1, 1, vec![9, 8, 7, 255]));
+        out.push((format!("then-cel-{}", name), g));
     }
     out
 }
@@ -263,7 +267,7 @@ pub fn run(ctx: &Ctx) -> i32 {
         return 2;
     }
     let total: usize = files.iter().map(|(n, _, e, sp)| if n.starts_with("sized-") { (0..*e).filter(|k| sparse_cut(*k, *e, sp)).count() } else if n == "big" && !thorough { (0..*e).filter(|k| k % 257 == 0 || k % 4096 < 24 || k % 4096 >= 4072 || sp.iter().any(|(a, b)| k.abs_diff(*a) < 24 || k.abs_diff(*b) < 24)).count() } else { *e }).sum();
-    ctx.family("prefixes", total as u64, &format!("every strict prefix bytes[..k], 0 <= k < end of last frame, of {} files: b1..b4, D1 in three formats, one file per chunk kind with that chunk last, 2- and 3-frame files whose last chunk is a 5..80 KB raw / zlib / stored-zlib / tilemap cel, user-data text, palette, tileset, slice or tags chunk that an earlier frame holds too, 3-frame files of exactly 64 KiB, 1 MiB and 2 MiB (+128, +128+16k) bytes with structured cuts, b1 with trailing bytes / both count styles / a tail, b1 and b2 with a stale (smaller) deprecated 16-bit chunk count beside the 32-bit one, and the corpus files up to 8 KB, plus `big` (every chunk > 64 KiB; quick: cuts near chunk / 4 KiB boundaries and every 257th offset, thorough: every offset){}", files.len(), if thorough { " plus one 525 KB corpus file at every offset" } else { "" }), true);
+    ctx.family("prefixes", total as u64, &format!("every strict prefix bytes[..k], 0 <= k < end of last frame, of {} files: b1..b4, D1 in three formats, one file per chunk kind with that chunk last and one with a cel chunk after it, 2- and 3-frame files whose last chunk is a 5..80 KB raw / zlib / stored-zlib / tilemap cel, user-data text, palette, tileset, slice or tags chunk that an earlier frame holds too, 3-frame files of exactly 64 KiB, 1 MiB and 2 MiB (+128, +128+16k) bytes with structured cuts, b1 with trailing bytes / both count styles / a tail, b1 and b2 with a stale (smaller) deprecated 16-bit chunk count beside the 32-bit one, and the corpus files up to 8 KB, plus `big` (every chunk > 64 KiB; quick: cuts near chunk / 4 KiB boundaries and every 257th offset, thorough: every offset){}", files.len(), if thorough { " plus one 525 KB corpus file at every offset" } else { "" }), true);
     for (name, bytes, end, spans) in &files {
         // `big` (400 KB) in the quick tier: every cut within 24 bytes of a chunk boundary, of a
         // 4 KiB / 64 KiB multiple, and every 257th offset; all offsets in the thorough tier
